@@ -8,7 +8,7 @@ default target; value: the synopsis), sorts the keys with `sort.Strings` and wri
 `text/tabwriter` (min width 0, tab width 4, padding 4, pad character blank, no flags).  Every line has exactly one
 tab-terminated cell, so there is one column, as wide as the widest `"  key"` plus the padding; the synopsis is the
 trailing cell and is written as it is (go/doc's synopsis contains neither tabs nor line breaks).
-`-h <target>` prints the one-line comment, the usage line and the aliases whose function has the same name and receiver.
+`-h <target>` prints the one-line comment, the usage line and the aliases that run this target.
 Colour (`MAGEFILE_ENABLE_COLOR`, `MAGEFILE_TARGET_COLOR`, `TERM`) wraps each key in an ANSI sequence before the
 tabwriter measures it.
 -/
@@ -78,9 +78,9 @@ def listText (info : PkgInfo) : String :=
    | some d => if d.name ≠ "" then "\n* default target\n" else ""
    | none => "")
 
-/-- the aliases shown by `-h`: the template compares name and receiver only -/
+/-- the aliases shown by `-h <target>`: those that run this very target (same command-line name) -/
 def helpAliases (info : PkgInfo) (f : Function) : List String :=
-  (info.aliases.filter fun a => a.2.name == f.name && a.2.receiver == f.receiver).map (·.1)
+  (info.aliases.filter fun a => a.2.targetName == f.targetName).map (·.1)
 
 /-- standard output of `-h <target>` for a known target -/
 def helpText (bin : String) (info : PkgInfo) (f : Function) : String :=
